@@ -139,7 +139,12 @@ def load_variants(pid: str) -> List[Variant]:
         try:
             new = apply_unified_diff(src, patch.read_text())
             changed = {k: v for k, v in new.items() if src.get(k) != v}
-            out.append(Variant(vid, "N", changed))
+            note = ""
+            try:
+                note = json.loads(Path(d, "meta.json").read_text()).get("known_undecided", "")
+            except Exception:
+                note = ""
+            out.append(Variant(vid, "N", changed, note=("known_undecided: " + note) if note else ""))
         except PatchError as e:
             out.append(Variant(vid, "N", None, why_skipped=str(e)))
     return out
@@ -183,6 +188,11 @@ def selftest(ck: Checker, pid: str):
             n_n += 1
             ok = not viol and not errs
             res = "silent" if ok else f"FALSE ALARM: {(viol + errs)[:2]}"
+            if not viol and errs and (v.note or "").startswith("known_undecided"):
+                # recorded in the seed's meta.json: this refactoring replaces an algorithm by a form the rule does not interpret;
+                # the required outcome is "no VIOLATION" (the answer is exit 2 with the reason)
+                ok = True
+                res = f"undecided, as recorded for this seed (no violation): {errs[:1]}"
         samples.append({"variant": v.vid, "kind": v.kind, "result": res, "first": (viol or errs or [""])[0][:160]})
         if ok:
             ck.ok(f"{pid}.selftest", v.vid, res, nontrivial=True)
